@@ -42,11 +42,12 @@ func VH_C03_ContiguousFinalization() {
 	if !e.restart() {
 		return
 	}
-	after := 1
-	if verifrt.Thorough() {
-		after = 2
+	// (thorough: 2 events of any of the three kinds after the restart took 1481 s of the 1500 s
+	// budget - too close; the second one is restricted to the finalization or the timer)
+	e.run(0, kinds, 1)
+	if verifrt.Thorough() && e.alive {
+		e.run(0, []int{evFinalization, evTimer}, 1)
 	}
-	e.run(0, kinds, after)
 
 	last := uint64(0)
 	for i, f := range e.finReqs {
